@@ -217,7 +217,7 @@ PROPS["C17"] = {
 
 PROPS["C06"] = {
     "title": "Every module built with the Builder survives assemble-then-load unchanged",
-    "units": {"quick": ["builder_sections", "builder_ops", "builder_core", "loader", "method_sweep", "reflect", "assemble"], "thorough": ["builder_sections", "builder_ops", "builder_core", "builder_gen", "loader", "assemble", "method_sweep", "reflect"]},
+    "units": {"quick": ["builder_sections", "builder_ops", "builder_core", "loader", "method_sweep", "reflect", "assemble", "kani_assemble_str"], "thorough": ["builder_sections", "builder_ops", "builder_core", "builder_gen", "loader", "assemble", "method_sweep", "reflect"]},
     "only_items": {"loader": [r"Loader::consume_instruction"], "reflect": [r"grammar::reflect::"],
                    "assemble": [r"dr::(Block|Function|Instruction|ModuleHeader|Operand)(::| as Assemble>::)assemble_into"]},
     "engines": ["verus", "replay-bounded"],
@@ -235,7 +235,7 @@ PROPS["C06"] = {
 
 PROPS["C15"] = {
     "title": "Module traversals visit exactly the assembled instruction sequence",
-    "units": {"quick": ["traversal_sweep", "assemble"], "thorough": ["traversal_sweep", "assemble"]},
+    "units": {"quick": ["traversal_sweep", "assemble", "kani_assemble_str"], "thorough": ["traversal_sweep", "assemble", "kani_assemble_str"]},
     "only_items": {"assemble": [r"dr::(Block|Function|Instruction|ModuleHeader)(::| as Assemble>::)assemble_into"]},
     "engines": ["replay-bounded", "verus"],
     "level": "model_checking",
@@ -250,7 +250,7 @@ PROPS["C15"] = {
 
 PROPS["C01"] = {
     "title": "Load-then-assemble reproduces every instruction of the input binary",
-    "units": {"quick": ["loader", "parser_protocol", "parser_core", "assemble", "decoder", "traversal_sweep", "tracker", "reflect", "table_core"],
+    "units": {"quick": ["loader", "parser_protocol", "parser_core", "assemble", "decoder", "traversal_sweep", "tracker", "reflect", "table_core", "kani_assemble_str"],
               "thorough": ["loader", "parser_protocol", "parser_core", "assemble", "decoder", "traversal_sweep", "table_core", "tracker", "reflect"]},
     "only_items": {"reflect": [r"grammar::reflect::"], "loader": [r"Loader::", r"step_adds", r"step_appends", r"ms_", r"step_refines"],
                    "parser_protocol": [r"Parser::(parse|new)$", r"Action::consume"],
